@@ -186,7 +186,7 @@ class Qube(object):
     # This prevents binary operations of the form:
     #   <np.ndarray> <op> <Qube>
     # from executing the ndarray operation instead of the polymath operation
-    __array_priority__ = 1
+    __array_priority__ = 100
 
     # Set this global attribute to True to restore a behavior removed on
     # 3/13/18. It allowed certain functions to return a Python value (float,
